@@ -264,7 +264,7 @@ def insertion_points(toks):
     return pts
 
 
-def join(toks, fill=None, tight=False):
+def join(toks, fill=None, tight=False, wordsep=" "):
     """Baseline: tokens separated by one space; fill = {index: filler inserted after token index (in addition)}.
     tight: no whitespace at all except between two word tokens (the text every other rendering is an insertion into)."""
     out = []
@@ -277,6 +277,8 @@ def join(toks, fill=None, tight=False):
             sep = "" if nxt.startswith("[") else " "
             if tight and not (re.match(r"\w", nxt[0]) and re.match(r"\w", t[-1])) and not nxt.startswith("#define"):
                 sep = ""
+            elif tight and not nxt.startswith("#define"):
+                sep = wordsep        # two words: something has to separate them - a blank, or a comment (finding F47)
             out.append(sep)
             if fill and i in fill:
                 out.append(fill[i] + " ")
@@ -392,6 +394,7 @@ class ParserCheck:
             # the text as a person would write it, and with no optional whitespace at all
             record(base_order, ["\n".join(decls[i]["text"] for i in base_order)], "source")
             record(base_order, ["\n".join(join(toks_per_decl[i], tight=True) for i in base_order)], "tight")
+            record(base_order, ["\n".join(join(toks_per_decl[i], tight=True, wordsep="/**/") for i in base_order)], "comment-separated")
             # every single insertion point of every declaration x one filler (thorough: three)
             for di, toks in enumerate(toks_per_decl):
                 for (p, where) in insertion_points(toks):
